@@ -325,6 +325,12 @@ def load_known():
     out = {}
     for e in d.get("findings", []):
         out.setdefault(e["property"], []).append(e)
+    dd = os.path.join(VERIF, "known_findings.d")      # per-property files, merged into known_findings.json at integration
+    if os.path.isdir(dd):
+        for f in sorted(os.listdir(dd)):
+            if f.endswith(".json"):
+                for e in json.load(open(os.path.join(dd, f))).get("findings", []):
+                    out.setdefault(e["property"], []).append(e)
     return out
 
 
